@@ -99,10 +99,25 @@ theorem ctxRemap_id (sch : Schema) (d : List (Str × Str)) (k : Str)
 
 theorem ctxRemap_main (sch : Schema) (d : List (Str × Str)) (hd tc : Str) (tb : List (Str × Str))
     (hm : sch.ctxMain = some (hd, tc, tb)) (h1 : alookup hd sch.ctxBasic = none) (t arg : Str)
-    (ht : alookup tc d = some t) (ha : alookup t tb = some arg) : ctxRemap sch d hd = .ok arg := by
+    (ht : alookup tc d = some t) (ha : alookup (strip pyWs t) tb = some arg) : ctxRemap sch d hd = .ok arg := by
   unfold ctxRemap
   rw [h1, hm]
   simp only [if_true, ht, ha]
+
+/-- a key that is found in a table of trimmed keys is trimmed: the type cell `unparse_row` writes is read
+as written -/
+theorem strip_of_alookup (tb : List (Str × Str)) (htb : ∀ kv ∈ tb, strip pyWs kv.1 = kv.1) (t arg : Str)
+    (ha : alookup t tb = some arg) : strip pyWs t = t := by
+  induction tb with
+  | nil => simp [alookup] at ha
+  | cons kv tb ih =>
+    unfold alookup at ha
+    split at ha
+    · rename_i hk
+      have := htb kv (by simp)
+      have hk' : kv.1 = t := by simpa using hk
+      rw [← hk']; exact this
+    · exact ih (fun kv' h => htb kv' (List.mem_cons_of_mem _ h)) ha
 
 /-- renaming one header to another header with the same remap image does not change the
 re-keyed row -/
